@@ -32,9 +32,9 @@ theorem rangeInt_of {bi bj : Option Val} {i j : Option Int} (h1 : IsBound bi i) 
   simp [rangeInt, rangeBound_of h1, rangeBound_of h2, puRange]
 
 /-- the array/byte-string arm of `index_opt` on an integer index -/
-theorem absIndex_of_pos {idx : Val} {k : Int} (h : IsPos idx k) (len : Nat) (hlen : len ≤ usizeMaxN) :
+theorem absIndex_of_pos {idx : Val} {k : Int} (h : IsPos idx k) (len : Nat) (hlen : len < usizeMaxN) :
     ∃ n, idx = .num n ∧ n.isInt = true ∧
-      ((Num.asPosUsize n).bind fun p => absIndex p len) = if inside len k then some (pos len k) else none := by
+      ((numAsPosUsize n).bind fun p => absIndex p len) = if inside len k then some (pos len k) else none := by
   cases h with
   | int => exact ⟨_, rfl, rfl, by simp [asPosUsize_int, absIndex_puOfInt]⟩
   | big =>
@@ -42,7 +42,10 @@ theorem absIndex_of_pos {idx : Val} {k : Int} (h : IsPos idx k) (len : Nat) (hle
     by_cases hb : k.natAbs ≤ usizeMaxN
     · simp [asPosUsize_big k hb, absIndex_puOfInt]
     · have : ¬ inside len k := by unfold inside; omega
-      simp [asPosUsize_big_none k (by omega), this]
+      rw [asPosUsize_big_beyond k (by omega)]
+      cases fixBigintBound
+      · simp [this]
+      · simp [this, absIndex_saturated _ len hlen]
 
 theorem findIdx?_get {o : Obj.Entries} {k : Val} :
     Obj.get o k = (objFindIdx o k).bind fun i => o[i]?.map (·.2) := by
